@@ -31,4 +31,64 @@ class AppendHistories:
         return {"name": self.name, "evidence": {"name": self.name, "level": "bounded", "bound": bound, "histories": r.get("histories"), "runs": r.get("runs"), "seconds": r.get("seconds"), "failures": len(r.get("failures", []))}, "violations": viol}
 
 
+class SectionRoundTrip:
+    """stream sections of the header against an encoder written from the format description (bounded/sections.py)"""
+
+    def __init__(self, prop):
+        self.name = "stream-sections-" + ("read" if prop == "C06" else "rewrite")
+        self.props = (prop,)
+        self.prop = prop
+
+    def run(self, tier, seed):
+        repo = os.environ.get("VERIF_REPO", "/repo")
+        env = dict(os.environ)
+        if os.path.realpath(repo) != "/repo":
+            env["PYTHONPATH"] = repo
+        n = 3000 if tier == "quick" else 60000
+        what = "StreamsInfo.read reports the described streams" if self.prop == "C06" else "StreamsInfo.write of what was read reads back to the described streams"
+        bound = "%d random MainStreamsInfo descriptions (seeded), <= 4 folders, <= 3 coders and <= 4 streams per folder, optional records present/absent, both Digests spellings: %s" % (n, what)
+        ev = {"name": self.name, "level": "bounded", "bound": bound}
+        try:
+            p = subprocess.run(["/venv/bin/python", os.path.join(HERE, "bounded", "sections.py"), tier, str(seed), self.prop], capture_output=True, text=True, timeout=600 if tier == "quick" else 3600, env=env, cwd=HERE)
+            r = json.loads(p.stdout.strip().split("\n")[-1])
+        except Exception as e:
+            return {"name": self.name, "error": "section runner failed: %s" % str(e)[:200], "evidence": ev, "violations": []}
+        viol = []
+        for i, f in enumerate(r.get("failures", [])[:3]):
+            viol.append({"name": "bounded/%s/%d" % (self.name, i), "property": self.prop, "obligation": "%s/bounded#%s" % (self.prop, self.name), "status": "confirmed", "concrete_input": f, "real_run": {"interpreter": "/venv/bin/python", "failure": f["failure"]}, "rerun": "/venv/bin/python bounded/sections.py replay <this file>"})
+        ev.update({"runs": r.get("runs"), "seconds": r.get("seconds"), "failures": len(r.get("failures", []))})
+        return {"name": self.name, "evidence": ev, "violations": viol}
+
+
+class PathGates:
+    """lexical path gates against an os.path oracle (bounded/paths.py)"""
+
+    def __init__(self, prop):
+        self.name = "path-gates-" + ("extraction" if prop == "C03" else "arcnames")
+        self.props = (prop,)
+        self.prop = prop
+
+    def run(self, tier, seed):
+        repo = os.environ.get("VERIF_REPO", "/repo")
+        env = dict(os.environ)
+        if os.path.realpath(repo) != "/repo":
+            env["PYTHONPATH"] = repo
+        bound = "every name of <= 4 components over {a, ab, b, .., ., ''} with prefixes '', '/', './', '//' against 8 output directories (see bounded/paths.py); " + ("get_sanitized_output_path / is_relative_to / is_path_valid stay component-wise inside the output directory" if self.prop == "C03" else "check_archive_path accepts exactly the relative names that never climb above their start")
+        ev = {"name": self.name, "level": "bounded", "bound": bound}
+        try:
+            p = subprocess.run(["/venv/bin/python", os.path.join(HERE, "bounded", "paths.py"), tier, str(seed), self.prop], capture_output=True, text=True, timeout=900, env=env, cwd="/usr/lib")
+            r = json.loads(p.stdout.strip().split("\n")[-1])
+        except Exception as e:
+            return {"name": self.name, "error": "path runner failed: %s" % str(e)[:200], "evidence": ev, "violations": []}
+        viol = []
+        for i, f in enumerate(r.get("failures", [])[:3]):
+            viol.append({"name": "bounded/%s/%d" % (self.name, i), "property": self.prop, "obligation": "%s/bounded#%s" % (self.prop, self.name), "status": "confirmed", "concrete_input": f, "real_run": {"interpreter": "/venv/bin/python", "failure": f["failure"]}, "rerun": "/venv/bin/python bounded/paths.py replay <this file>"})
+        ev.update({"runs": r.get("runs"), "seconds": r.get("seconds"), "failures": len(r.get("failures", []))})
+        return {"name": self.name, "evidence": ev, "violations": viol}
+
+
 REGISTRY.scenarios.append(AppendHistories())
+REGISTRY.scenarios.append(PathGates("C03"))
+REGISTRY.scenarios.append(PathGates("C16"))
+REGISTRY.scenarios.append(SectionRoundTrip("C06"))
+REGISTRY.scenarios.append(SectionRoundTrip("C08"))
